@@ -103,6 +103,36 @@ func main() {
 				st.Fail("C12:error-changed-chain", fmt.Sprintf("ProcessBlock returned an error but the active chain changed from %v to %v", prevMain, o.Main),
 					map[string]interface{}{"hist": h, "at": o})
 			}
+			// (2') irreversibility regimes: when a block arrives whose fully valid
+			// chain has more work than the tip, the node must switch unless the guard
+			// is specified to refuse (values before the delivery)
+			if h.Irr {
+				ptip := prevMain[0]
+				if !o.Err && !o.Orphan && info.ChainOK(o.Blk, delivered) && info.WorkSum(o.Blk) > info.WorkSum(ptip) {
+					// fork point = first ancestor of the block on the previous main chain
+					onMain := map[int]bool{}
+					for _, m := range prevMain {
+						onMain[m] = true
+					}
+					fp := o.Blk
+					for !onMain[fp] {
+						fp = h.Blocks[fp-1].Parent
+					}
+					cur, d := h.Height(ptip), h.Height(ptip)-h.Height(fp)
+					dpos := ptip != 0 && h.Blocks[ptip-1].Dpos
+					refuse := chaincase.GuardSpec(h.CRC, h.RS, dpos, o.LihBefore, cur, d)
+					if !refuse && tip != o.Blk {
+						st.Fail("C12:guard-refused-allowed-switch", fmt.Sprintf("block %d arrived with more work (%d) than the tip %d (%d); fork point height %d, tip height %d, detach %d, LIH %d, dpos=%v, CRCOnlyDPOSHeight %d, RevertToPOWStartHeight %d: the guard must not refuse, but the tip is %d",
+							o.Blk, info.WorkSum(o.Blk), ptip, info.WorkSum(ptip), h.Height(fp), cur, d, o.LihBefore, dpos, h.CRC, h.RS, tip), map[string]interface{}{"hist": h, "at": o})
+					}
+					if refuse && tip == o.Blk {
+						st.Fail("C12:guard-allowed-refused-switch", fmt.Sprintf("block %d: the guard is specified to refuse (tip height %d, detach %d, LIH %d, dpos=%v) but the node switched", o.Blk, cur, d, o.LihBefore, dpos),
+							map[string]interface{}{"hist": h, "at": o})
+					}
+				}
+				prevMain = o.Main
+				continue
+			}
 			// (2) no known fully valid chain has strictly more work
 			worse := -1
 			for _, b := range h.Blocks {
@@ -200,6 +230,18 @@ func main() {
 		doHist(&chaincase.Hist{Name: fmt.Sprintf("deep-%d", i), Blocks: bs, Order: ord})
 	}
 
+	// ---- the guard itself: real State.IsIrreversible on an exhaustive small grid
+	// (three height parameters x mode x LIH x tip height x detach count), compared
+	// with the model in the shards and with the specification (C12_guard_excludes)
+	// here
+	guardGrid(run, st, sh, &id, "C12")
+
+	// ---- height regimes x consensus modes on the real chain: the decision is
+	// judged when the heavier block arrives (in-order deliveries)
+	for i := 0; i < run.N(14, 300); i++ {
+		doHist(chaincase.RegimeFork(rng.Fork()))
+	}
+
 	// ---- generated
 	n := run.N(45, 800)
 	for i := 0; i < n; i++ {
@@ -210,4 +252,44 @@ func main() {
 	st.Traces = st.Evals
 	sh.Flush()
 	st.Write(run.Out)
+}
+
+// guardGrid runs the real IsIrreversible on the grid, adds the Coq cases and
+// evaluates the specification on every point with 0 <= d <= cur.
+func guardGrid(run *lib.Run, st *lib.Stats, sh *lib.Shards, id *int, prop string) {
+	maxCur := 16
+	for _, crc := range []uint32{0, 3, 12} {
+		for _, rs := range []uint32{5, 10, 14} {
+			outs, err := chaincase.GuardGrid(crc, rs, maxCur)
+			if err != nil {
+				st.Fail(prop+":harness", "guard grid could not be executed: "+err.Error(), nil)
+				return
+			}
+			*id++
+			sh.Add(chaincase.CoqGuardGrid(*id, crc, rs, maxCur, outs))
+			st.LogCase(run.Out, *id, map[string]interface{}{"guard_grid": []uint32{crc, rs}})
+			k := 0
+			bad := 0
+			for _, dpos := range []bool{false, true} {
+				for _, l := range chaincase.GuardGridLs {
+					for cur := 0; cur <= maxCur; cur++ {
+						for d := 0; d <= maxCur+1; d++ {
+							got := outs[k]
+							k++
+							if d > cur {
+								continue
+							}
+							want := chaincase.GuardSpec(crc, rs, dpos, l, cur, d)
+							if got != want && bad < 3 {
+								bad++
+								st.Fail(prop+":guard-differs-from-specification", fmt.Sprintf("IsIrreversible(cur=%d, detach=%d) with LIH=%d dpos=%v CRCOnlyDPOSHeight=%d RevertToPOWStartHeight=%d returned %v, specified %v",
+									cur, d, l, dpos, crc, rs, got, want), map[string]interface{}{"crc": crc, "rs": rs, "dpos": dpos, "lih": l, "cur": cur, "detach": d})
+							}
+						}
+					}
+				}
+			}
+			st.Count(fmt.Sprintf("grid:%d:%d", crc, rs), true, "guard-grid")
+		}
+	}
 }
